@@ -433,7 +433,20 @@ UNCAST_CTX = [
     ("u_or", "{x} or false", "bool", _only(_BOOL, lambda b: J.or3(b, False))),
 ]
 
+# further text functions: on the canonical rendering of every path, and on the FLATTEN VALUE column
+TEXT_FN_OPS = [
+    ("ltrim", "ltrim({x})", "text", J.ltrim, "text"),
+    ("rtrim", "rtrim({x})", "text", J.rtrim, "text"),
+    ("trim_chars", "trim({x}, 'S ')", "text", J.trim_fn("b", "S "), "text"),
+    ("ltrim_chars", "ltrim({x}, ' p')", "text", J.trim_fn("l", " p"), "text"),
+    ("rtrim_chars", "rtrim({x}, 'r ')", "text", J.trim_fn("r", "r "), "text"),
+    ("c_trim_eq", "trim({x}) = 'pad'", "bool", _ctx(lambda t: J.cmp3(t, "=", "pad"), lambda v: _T(v).strip(" ") if isinstance(_T(v), str) else _T(v)), "context"),
+    ("c_upper_eq", "upper({x}::varchar) = 'STR'", "bool", _ctx(lambda t: J.cmp3(t, "=", "STR"), lambda v: _T(v).upper() if isinstance(_T(v), str) else _T(v)), "context"),
+]  # fmt: skip
+
 OPS = {}
+for _o in TEXT_FN_OPS:
+    OPS[_o[0]] = {"id": _o[0], "tpl": _o[1], "mode": _o[2], "ref": _o[3], "clause": _o[4], "deps": ("raw", "varchar") if _o[0] == "c_upper_eq" else ("raw",)}  # fmt: skip
 for _o in VALUE_OPS:
     OPS[_o[0]] = {"id": _o[0], "tpl": _o[1], "mode": _o[2], "ref": _o[3], "clause": _o[4], "deps": () if _o[0] == "raw" else ("raw",)}  # fmt: skip
 for _o in CAST_CTX:
@@ -441,8 +454,9 @@ for _o in CAST_CTX:
 for _o in UNCAST_CTX:
     OPS[_o[0]] = {"id": _o[0], "tpl": _o[1], "mode": _o[2], "ref": _o[3], "clause": "context_uncast", "deps": ("raw",)}
 VALUE_IDS = [o[0] for o in VALUE_OPS]
-ALL_IDS = VALUE_IDS + [o[0] for o in CAST_CTX] + [o[0] for o in UNCAST_CTX]
-LEVELS = [["raw"], VALUE_IDS[1:], [o[0] for o in CAST_CTX] + [o[0] for o in UNCAST_CTX]]
+TEXT_FN_IDS = [o[0] for o in TEXT_FN_OPS]
+ALL_IDS = VALUE_IDS + TEXT_FN_IDS + [o[0] for o in CAST_CTX] + [o[0] for o in UNCAST_CTX]
+LEVELS = [["raw"], VALUE_IDS[1:], TEXT_FN_IDS + [o[0] for o in CAST_CTX] + [o[0] for o in UNCAST_CTX]]
 
 
 def expected(opid, target):
@@ -450,7 +464,7 @@ def expected(opid, target):
 
 
 def clause_of(opid, target):
-    if target is J.MISSING and opid in VALUE_IDS:
+    if target is J.MISSING and (opid in VALUE_IDS or OPS[opid]["clause"] == "text"):
         return "C11.missing"
     return "C11." + OPS[opid]["clause"]
 
@@ -537,6 +551,8 @@ def _world(tier):
         for s in split_setup(range(len(SPLIT_STRINGS))):
             cur.execute(s)
         for s in nest_load_sql(nest_docs_for(tier)):
+            cur.execute(s)
+        for s in fval_load_sql(range(len(fval_docs_for(tier))), tier) + fsplit_load_sql(range(len(FSPLIT_STRINGS))):
             cur.execute(s)
         w = _W[tier] = {"fs": fs, "conn": conn, "cur": cur, "docs": docs, "raw": raw, "kk": None}
     return w
@@ -1708,6 +1724,186 @@ def work_nestlit(item, acc, tier):
     return None
 
 
+
+# ---- operations on the VALUE column of LATERAL FLATTEN ---------------------------------------------------------------------------
+# FVAL_DOCS (arrays) x FVAL_INPUTS (what is flattened) x FVAL_VARIANTS (how VALUE and the tables are named) x
+# (every value op, text function, cast context and uncast context applied to VALUE in the select list; every boolean
+# context as the WHERE clause). The reference is the Python list: one row per element, in order, op applied to it.
+FVAL_ELEMS = ["  pad  ", "Str", 'q"\\', "", 0, -1.5, True, None, [1], {"k": " v "}, []]
+FVAL_ELEMS_QUICK = ["  pad  ", 'q"\\', 0, True, None, {"k": " v "}, []]
+FSPLIT_STRINGS = ["  padded  ,plain", "Str, p ,S", "x", "", 'q"\\,Str', None]
+FVAL_INPUTS = [  # (id, table, flattened expression over {t} = table qualifier (with its dot) or '', what the row's list is)
+    ("column", "jf", "{t}v"),
+    ("path", "jf", "{t}w:a"),
+    ("bracket", "jf", "{t}w['a']"),
+    ("split", "sf", "split({t}s, ',')"),
+]
+FVAL_VARIANTS = [  # (id, table alias?, flatten alias, how VALUE is written)
+    ("t.f.qualified", True, "f", "f.value"),
+    ("t.f.bare", True, "f", "value"),
+    ("t.bare", True, "", "value"),
+    ("cte.f.qualified", False, "f", "f.value"),
+    ("cte.bare", False, "", "value"),
+]
+FVAL_WHERE = ["c_eq", "c_ne", "c_isnull", "c_and", "c_or", "c_not", "c_in", "c_like", "c_rhs_eq", "c_trim_eq", "c_upper_eq"]
+
+
+def fval_docs_for(tier):
+    el = FVAL_ELEMS if tier == "thorough" else FVAL_ELEMS_QUICK
+    return _dedupe([[]] + [[x] for x in el] + [[x, y] for x in el for y in el] + [list(FVAL_ELEMS)])
+
+
+def fval_load_sql(ids, tier):
+    docs = fval_docs_for(tier)
+    rows = ", ".join(f"({n}, {_sqlstr(canon(docs[n]))}, {_sqlstr(canon({KEY1: docs[n]}))})" for n in ids)
+    return ["create or replace table jf (id int, v variant, w variant)",
+            f"insert into jf select column1, parse_json(column2), parse_json(column3) from values {rows}"]  # fmt: skip
+
+
+def fsplit_load_sql(ids):
+    rows = ", ".join(f"({n}, {'NULL' if FSPLIT_STRINGS[n] is None else _sqlstr(FSPLIT_STRINGS[n])})" for n in ids)
+    return ["create or replace table sf (id int, s varchar)", f"insert into sf values {rows}"]
+
+
+def fval_lists(inp, tier):
+    """the Python list each row's FLATTEN input denotes"""
+    if inp[0] == "split":
+        return [J.split(s, ",") or [] for s in FSPLIT_STRINGS]
+    return fval_docs_for(tier)
+
+
+def _fval_stmt(inp, variant, cond=None, single=False):
+    """-> (head, leading column, tail, VALUE text)"""
+    _iid, table, tpl = inp
+    _vid, talias, falias, val = variant
+    where = "" if single else f" where id in (select id from kk where {cond})"
+    if talias:
+        return "", "t.id", f" from (select * from {table}{where}) t, lateral flatten(input => {tpl.format(t='t.')}) {falias}", val
+    return f"with s as (select * from {table}{where}) ", "id", f" from s, lateral flatten(input => {tpl.format(t='')}) {falias}", val
+
+
+def fval_ops(tier):
+    return [o for o in ALL_IDS]
+
+
+def work_fval(item, acc, tier):
+    """item = ('fval', input index, variant index)"""
+    _, ii, vi = item
+    inp, variant = FVAL_INPUTS[ii], FVAL_VARIANTS[vi]
+    w = _world(tier)
+    cur = w["cur"]
+    lists = fval_lists(inp, tier)
+    allids = list(range(len(lists)))
+    _set_kk(w, ("fval", inp[1], tier), [i for i in allids])  # t = row id: a data-dependent error is narrowed down to rows
+    setup_of = (lambda i: fsplit_load_sql([i])) if inp[0] == "split" else (lambda i: fval_load_sql([i], tier))
+
+    def evaluate(exprs, rowset, judge_row, clause_feats, where=""):
+        """exprs: [(key, sql text, mode)]; judge_row(key, i) -> [expected per output row]. All over the rows `rowset`"""
+        ids = sorted(rowset)
+        _set_excluded(w, set(allids) - set(ids))
+        right = {}
+        res = []
+        for ch in _chunks(exprs, BATCH):
+            head, pre, tail, _v = _fval_stmt(inp, variant, "not x")
+            res += run_exprs(cur, acc, [e[1] for e in ch], [pre], tail + where, head)
+        for (key, e, mode), r in zip(exprs, res):
+            per_id = None
+            if r[0] == "err" and len(ids) > 1:
+                head, pre, tail, _v = _fval_stmt(inp, variant, "k = -1")
+                if run_exprs(cur, acc, [e], [pre], tail + where, head)[0][0] == "ok":  # the error depends on the data
+                    acc.count("refined_per_value")
+                    per_id = {}
+                    for i in ids:
+                        head, pre, tail, _v = _fval_stmt(inp, variant, f"id = {i}")
+                        rr = run_exprs(cur, acc, [e], [pre], tail + where, head)[0]
+                        per_id[i] = ("ok", _by_id(rr[1]).get(i, ())) if rr[0] == "ok" else rr
+            if per_id is None:
+                got = _by_id(r[1]) if r[0] == "ok" else None
+                per_id = {i: (("ok", got.get(i, ())) if got is not None else r) for i in ids}
+            stats: dict = {}
+            sig = []
+            ok_rows = set()
+            for i in ids:
+                exps = judge_row(key, i)  # [(expected, element)]
+                rr = per_id[i]
+                sig.append((i, rr[0], rr[1]))
+                whole = rr[0] == "ok" and len(rr[1]) == len(exps)
+                row_ok = True
+                cells = exps if exps else [(None, J.MISSING)]  # an empty list: one cell "no row expected"
+                for n, (exp, el) in enumerate(cells):
+                    good = whole and (not exps or J.matches(mode, exp, rr[1][n]))
+                    if exp is not None and exp is not J.MISSING:
+                        acc.nontrivial(("fval", inp[0], key, canon(el)))
+                    clause, feats = clause_feats(key, el)
+                    fk = (clause, tuple(sorted(feats.items())))
+                    st = stats.setdefault(fk, [0, 0, None])
+                    st[0] += 1
+                    if not good:
+                        row_ok = False
+                        st[1] += 1
+                        if st[2] is None:
+                            head, _pre, tail, _v = _fval_stmt(inp, variant, single=True)
+                            sql1 = f"{head}select {e}{tail}{where}"
+                            st[2] = (
+                                {"sql": sql1, "list": lists[i], "expected": repr([x for x, _el in exps]), "observed": _observed(rr)},
+                                _replay_payload(setup_of(i), sql1, [enc(mode, x) for x, _el in exps], rows="seq"),
+                            )
+                if row_ok:
+                    ok_rows.add(i)
+            right[key] = ok_rows
+            acc.count("evaluations", len(ids))
+            acc.obs(("fval", inp[0], variant[0], key, where, sig))
+            for fk in sorted(stats):
+                n, nfail, example = stats[fk]
+                acc.outcome(("fval", key, fk, "fail" if nfail else "ok"))
+                _record(acc, fk[0], dict(fk[1]), n, nfail, example)
+        return right
+
+    val = variant[3]
+
+    def feats_of(o, el):
+        k = "none" if el is J.MISSING else J.kind_of(el)
+        return clause_of(o, None if el is J.MISSING else el) if el is not J.MISSING else "C11.flatten", {"fco": "value", "op": o, "kind": k, "source": "fval"}
+
+    def rows_for(o, among):
+        return {i for i in among if all(expected(o, el) is not J.UNDEMANDED for el in lists[i])}
+
+    def judge(o, i):
+        return [(expected(o, el), el) for el in lists[i]]
+
+    # level 0: VALUE itself; then every other op on the rows where VALUE is right
+    right = evaluate([("raw", OPS["raw"]["tpl"].format(x=val), "json")], set(allids), judge, feats_of)
+    good0 = right["raw"]
+    acc.count("shadowed_cells", len(allids) - len(good0))
+    ops = [o for o in ALL_IDS if o != "raw"]
+    groups: dict = {}
+    for o in ops:
+        rs = frozenset(rows_for(o, good0))
+        if rs:
+            groups.setdefault(rs, []).append(o)
+    done = {}
+    for rs in sorted(groups, key=sorted):
+        done.update(evaluate([(o, OPS[o]["tpl"].format(x=val), OPS[o]["mode"]) for o in groups[rs]], rs, judge, feats_of))
+    # WHERE placement: the rows whose element satisfies the predicate, in order
+    for o in FVAL_WHERE:
+        rs = rows_for(o, good0) & done.get(o, set())
+        if not rs:
+            continue
+
+        def judge_where(_key, i, o=o):
+            return [(el, el) for el in lists[i] if expected(o, el) is True]
+
+        def feats_where(_key, el, o=o):
+            return "C11.context", {"fco": "value", "op": o + ".where", "kind": "arr", "source": "fval"}
+
+        evaluate([(o + ".where", val, "json")], rs, judge_where, feats_where, where=" where " + OPS[o]["tpl"].format(x=val))
+    if vi == 0:
+        head, _pre, tail, _v = _fval_stmt(inp, variant, single=True)
+        acc.sample({"mode": "fval", "input": inp[2], "variant": variant[0], "rows": len(lists), "one_list": lists[min(3, len(lists) - 1)],
+                    "statements": [f"{head}select {OPS[o]['tpl'].format(x=val)}{tail}" for o in ("trim", "rtrim_chars", "c_trim_eq")]})  # fmt: skip
+    return None
+
+
 def work(item, acc, tier):
     kind = item[0]
     if kind == "col":
@@ -1724,6 +1920,8 @@ def work(item, acc, tier):
         return work_nest(item, acc, tier)
     if kind == "nestlit":
         return work_nestlit(item, acc, tier)
+    if kind == "fval":
+        return work_fval(item, acc, tier)
     raise core.HarnessError(f"unknown item {item!r}")
 
 
@@ -1737,6 +1935,7 @@ def items_for(tier):
     items += [("misc", m) for m in ("parse", "nullkey", "split", "flatlit")]
     items += [("nest", wi, pi) for wi in range(len(NEST_WRAPPERS)) for pi in range(len(NEST_P1[tier]))]
     items += [("nestlit", di) for di in range(len(nest_lit_docs_for(tier)))]
+    items += [("fval", ii, vi) for ii in range(len(FVAL_INPUTS)) for vi in range(len(FVAL_VARIANTS))]
     return items
 
 
